@@ -8,8 +8,8 @@ import (
 	"fmt"
 	modbus "github.com/aldas/go-modbus-client"
 	"math/rand"
-	"runtime"
 	"net"
+	"runtime"
 	"time"
 
 	"github.com/aldas/go-modbus-client/packet"
